@@ -45,7 +45,7 @@ def main():
     open(os.path.join(src, "a.h"), "w").write(HEADER)
 
     def spec_for(kind, mode, name):
-        b = {"kernel": "k", "nout": 4}
+        b = {"kernel": "k", "nout": 4, "argcheck": True}
         if kind == "file":
             b["file"] = os.path.join(src, "k.okl")
         else:
@@ -53,7 +53,9 @@ def main():
         return fsx.write_spec(os.path.join(c.scratch, name + ".json"), mode, [b])
 
     def good(kind, pr):
-        return pr.rc == 0 and pr.results.get(0) == EXPECT[kind] and not pr.timed_out
+        # correct output AND the loaded kernel still validates its argument list (an entry with a binary but
+        # without its build file is an incomplete entry treated as complete)
+        return pr.rc == 0 and pr.results.get(0) == EXPECT[kind] and not pr.timed_out and pr.argcheck.get(0) == 1
 
     # --- replay one kill point -------------------------------------------------
     def kill_run(scn, spec, pre, k, torn, grp, tag):
@@ -97,7 +99,7 @@ def main():
         print("replay:", "VIOLATION" if bad else "ok")
         sys.exit(1 if bad else 0)
 
-    deadline = c.t0 + c.budget(150, 1500)
+    deadline = c.t0 + c.budget(300, 1800)
     scenarios = []
     modes = ["Serial", "OpenMP"]
     for mode in modes:
@@ -191,7 +193,7 @@ def main():
             if not good(kind, r2):
                 cls = "recovery-failed"
                 c.violation("recovery-failed:%s:%s:%s" % (how, opname, base),
-                            "%s: killed (%s) at op %d [%s]; follow-up build: %s results=%s; cache after kill: %s" % (name, how, k, opdesc, r2.summary(), r2.results.get(0), listing[:12]), rep)
+                            "%s: killed (%s) at op %d [%s]; follow-up build: %s results=%s rejects-wrong-argument-count=%s; cache after kill: %s" % (name, how, k, opdesc, r2.summary(), r2.results.get(0), r2.argcheck.get(0), listing[:12]), rep)
             elif r3 is not None and not good(kind, r3):
                 cls = "third-run-failed"
                 c.violation("later-build-failed:%s:%s:%s" % (how, opname, base),
